@@ -39,7 +39,7 @@ pub struct Shared {
 }
 
 impl Shared {
-    fn push(&self, s: String) {
+    pub(crate) fn push(&self, s: String) {
         self.log.lock().unwrap().push(s);
     }
 }
@@ -57,9 +57,9 @@ fn ctrl_u8(c: ControlField) -> u8 {
     (if c.fir { 0x80 } else { 0 }) | (if c.fin { 0x40 } else { 0 }) | (if c.con { 0x20 } else { 0 }) | (if c.uns { 0x10 } else { 0 }) | c.seq.value()
 }
 
-struct RH {
-    who: String,
-    sh: Shared,
+pub(crate) struct RH {
+    pub(crate) who: String,
+    pub(crate) sh: Shared,
 }
 
 impl RH {
@@ -161,9 +161,9 @@ pub fn task_err(e: TaskError) -> String {
     }
 }
 
-struct AI {
-    addr: u16,
-    sh: Shared,
+pub(crate) struct AI {
+    pub(crate) addr: u16,
+    pub(crate) sh: Shared,
 }
 impl AssociationInformation for AI {
     fn task_start(&mut self, t: TaskType, fc: FunctionCode, seq: Sequence) {
@@ -192,11 +192,11 @@ fn event_classes(b: u64) -> EventClasses {
     EventClasses::new(b & 1 != 0, b & 2 != 0, b & 4 != 0)
 }
 
-fn classes(b: u64) -> Classes {
+pub(crate) fn classes(b: u64) -> Classes {
     Classes::new(b & 8 != 0, event_classes(b))
 }
 
-fn assoc_config(ws: &[&str]) -> AssociationConfig {
+pub(crate) fn assoc_config(ws: &[&str]) -> AssociationConfig {
     let mut c = AssociationConfig::new(
         event_classes(kv_u64(ws, "dis", 7)),
         event_classes(kv_u64(ws, "en", 7)),
@@ -219,7 +219,7 @@ fn assoc_config(ws: &[&str]) -> AssociationConfig {
 
 /// build the `CommandHeaders` the raw object octets stand for (None: not a well-formed list of
 /// control headers with counts >= 1)
-fn command_headers(objs: &[u8]) -> Option<CommandHeaders> {
+pub(crate) fn command_headers(objs: &[u8]) -> Option<CommandHeaders> {
     let mut b = CommandBuilder::new();
     let mut i = 0;
     let mut nh = 0;
@@ -337,7 +337,7 @@ fn deadband_headers(objs: &[u8]) -> Option<Vec<DeadBandHeader>> {
     Some(res)
 }
 
-fn cmd_err(e: CommandError) -> String {
+pub(crate) fn cmd_err(e: CommandError) -> String {
     match e {
         CommandError::Task(t) => format!("err {}", task_err(t)),
         CommandError::Response(r) => match r {
@@ -351,7 +351,7 @@ fn cmd_err(e: CommandError) -> String {
     }
 }
 
-fn ts_err(e: TimeSyncError) -> String {
+pub(crate) fn ts_err(e: TimeSyncError) -> String {
     match e {
         TimeSyncError::Task(t) => format!("err {}", task_err(t)),
         TimeSyncError::ClockRollback => "err clock_rollback".into(),
